@@ -6,6 +6,10 @@
 //   data <k> | set <k> <field> v... | num <k> <field> | numm <field> | setm <field> v... | scalar <k> <name>
 //   forward <k> | step <k> [n] | resetdata <k>
 //   contactsfull <k>   -> "ncon: g1 g2 dim exclude dist includemargin pos(3) frame(9) efc_address | ..."   (%.17g)
+//   kbip <rs> <ts> <sr0> <sr1> <d0> <d1> <width> <mid> <power> <pos>     (16-hex-digit IEEE tokens; rs = 1: REFSAFE active, 0: disabled)
+//                    requires a model whose first equality is a single-joint `joint` equality on the only (scalar) joint: writes
+//                    eq_solref/eq_solimp of equality 0, opt.timestep, the REFSAFE bit and qpos[0], runs mj_forward (the real
+//                    getsolparam / getimpedance / mj_makeImpedance) and prints (efc_pos-efc_margin) K B I of row 0 as hex tokens
 // Engine errors (mju_error) are caught and reported as "error <msg>".
 #define main engine_repl_main_unused
 #include "engine_repl.c"
@@ -76,6 +80,29 @@ int main(void) {
         else mj_resetData(m, d);
       }
       printf("ok\n");
+    } else if (!strcmp(op, "kbip") && n == 11) {
+      mjData* d = SLOT(0);
+      double v[10]; int okp = 1;
+      for (int i = 0; i < 10; i++) {
+        if (strlen(tok[1 + i]) != 16 || strspn(tok[1 + i], "0123456789abcdef") != 16) { okp = 0; break; }
+        uint64_t u = strtoull(tok[1 + i], NULL, 16); memcpy(v + i, &u, 8);
+      }
+      if (!okp || !(v[0] == 0.0 || v[0] == 1.0)) printf("bad-op\n");
+      else if (!d || m->neq < 1 || m->eq_type[0] != mjEQ_JOINT || m->eq_obj2id[0] != -1 || m->nq != 1 || m->nv != 1) printf("error kbip needs the one-joint-equality model and data slot 0\n");
+      else {
+        m->opt.timestep = v[1];
+        if (v[0] == 1.0) m->opt.disableflags &= ~mjDSBL_REFSAFE; else m->opt.disableflags |= mjDSBL_REFSAFE;
+        m->eq_solref[0] = v[2]; m->eq_solref[1] = v[3];
+        for (int i = 0; i < 5; i++) m->eq_solimp[i] = v[4 + i];
+        d->qpos[0] = v[9];
+        mj_forward(m, d);
+        if (d->nefc < 1 || d->efc_type[0] != mjCNSTR_EQUALITY) printf("error kbip: no equality row\n");
+        else {
+          double o[4] = { d->efc_pos[0] - d->efc_margin[0], d->efc_KBIP[0], d->efc_KBIP[1], d->efc_KBIP[2] };
+          for (int i = 0; i < 4; i++) { uint64_t u; memcpy(&u, o + i, 8); if (o[i] != o[i]) printf("%snan", i ? " " : ""); else printf("%s%016llx", i ? " " : "", (unsigned long long)u); }
+          printf("\n");
+        }
+      }
     } else if (!strcmp(op, "contactsfull") && n == 2) {
       mjData* d = SLOT(atoi(tok[1]));
       if (!d) { printf("bad-op\n"); fflush(stdout); continue; }
